@@ -159,6 +159,18 @@ fn exec<T: Tbl>(ctx: &mut Ctx, ev: &Ev) {
                 Some(x) => x,
                 None => return,
             };
+            if ev.tabs[0] == ev.tabs[1] {
+                // the same object passed as both cofactors: the result is that function
+                ctx.cell_only(&cell("from_cofactors-aliased", regime1(i), T::ty(), n));
+                match guard(|| T::t_from_cofactors(&f, &f, i)) {
+                    Outcome::Returned(h) => {
+                        ctx.check("from-cofactors-exact", h == f && h.t_blocks() == f.t_blocks(), ev, "aliased", || {
+                            format!("from_cofactors(&c, &c, {}) with one object for both cofactors gave {} for c={}", i, hex_of_blocks(h.t_blocks()), show(&mf))
+                        });
+                    }
+                    Outcome::Panicked(m) => ctx.violate("no-panic", ev, "from_cofactors-aliased", format!("from_cofactors(&c, &c, {}) panicked: {}", i, m)),
+                }
+            }
             let want = Model::from_cofactors(&mf, &m1, i);
             match guard(|| T::t_from_cofactors(&f, &c1, i)) {
                 Outcome::Returned(h) => {
@@ -204,6 +216,9 @@ fn run_fc(ctx: &mut Ctx, n: usize, c0: &[u64], c1: &[u64]) {
         for i in 0..n {
             exec_dispatch(ctx, &Ev::new("from_cofactors", ty, n).tab(c0).tab(c1).int(i));
         }
+        // one function as both cofactors (also through one shared reference)
+        let i = n / 2;
+        exec_dispatch(ctx, &Ev::new("from_cofactors", ty, n).tab(c0).tab(c0).int(i));
     }
 }
 
